@@ -148,7 +148,7 @@ def run(ctx):
     rejected = L.validate_parallel(ctx, recs, "region")
     # (b) end to end
     from harness import finder_region
-    erecs, erej = finder_region.run(ctx, 6 if quick else 60)
+    erecs, erej = finder_region.run(ctx, 12 if quick else 60)
     ctx.count(evaluations=len(recs) + len(erecs), nontrivial=len(recs) + len(erecs), traces=len(recs) + len(erecs))
     ctx.cov["rule"] = ("every class grid (with a seeded pixel) of the domains %s x membership patterns (all, none, single, complement, "
                        "checkerboard, row>=k, col>=k), special elongated/L-shaped/straddling islands x all patterns; end-to-end run pairs; "
